@@ -48,6 +48,13 @@
 (*    {tid, route, tol, ds[], rs[] (quantised ringds), rm[][] (members of  *)
 (*    each ring as 1-based list positions), gds[], ra[] (assigntorings)}.  *)
 (*    One verdict line per trace: the failed clause or "".                 *)
+(*    Tables made from long lists (BIG instances of HklWalk, 2e4 .. 1e6    *)
+(*    reflections, thousands of rings) arrive as WINDOWS: a run of whole,  *)
+(*    consecutive rings with their stretch of the list.  The grouping rule *)
+(*    restarts at every ring start, so such a run is a trace of its own;   *)
+(*    that the whole table is a partition of the whole list into           *)
+(*    consecutive runs is judged in linear time by the harness             *)
+(*    (c03_lib.judge_rings_np) with the same clauses.                      *)
 (***************************************************************************)
 EXTENDS Integers, Sequences, FiniteSets, TLC, Json, IOUtils
 
